@@ -1927,6 +1927,14 @@ class Method:
             else (f.type for f in self.flattened_fields.values() if f.message or f.enum)
         )
         answer.extend(types)
+        if not recursive:
+            # The value type of a flattened map field is named in the
+            # method signature too.
+            for f in self.flattened_fields.values():
+                if f.map:
+                    value = f.type.fields["value"]
+                    if value.message or value.enum:
+                        answer.append(value.type)
 
         if not self.void:
             answer.append(self.client_output)
